@@ -1,11 +1,417 @@
-import DryocVerif.Model.Curve
 import DryocVerif.Model.Sign
-namespace DryocVerif.Properties.C06
-open DryocVerif
+import DryocVerif.Proofs.Sign
+import DryocVerif.Proofs.SignGroup
+import DryocVerif.Proofs.SignVectors
+/-!
+# C06 — Ed25519 signing glue (`Model/Sign.lean`)
 
-/-- key derivation rejects exactly the lengths outside 16..=64 -/
-theorem kdf_err_iff (P : Model.Curve.Prims) (len id : Nat) (ctx key : Bytes) :
-    Model.Curve.kdfDerive P len id ctx key = .err ↔ len < 16 ∨ 64 < len := by
-  unfold Model.Curve.kdfDerive; split <;> simp_all
+The model mirrors `/repo/src/classic/crypto_sign_ed25519.rs`, `crypto_sign.rs`, `sign.rs`:
+dryoc's own sequence of hashing, reduction and encoding around curve25519-dalek's
+Edwards arithmetic.  The curve operations are those of `Spec.Ed25519` (RFC 8032 on
+`Nat` mod p); SHA-512 is a parameter `H` wherever the statement does not need it to be
+SHA-512.
+
+What is proved unconditionally (for the model):
+* signing is RFC 8032 `signCore` byte for byte, both modes (`sign_model_eq_spec`,
+  `signPh_model_eq_spec`);
+* layout/length/error behaviour of the combined API (`sig_layout`, …);
+* every rejection rule of `verifyDetached` (non-canonical S, lengths, small order,
+  undecodable), and the exact acceptance condition (`verifyDetached_true_iff`);
+* domain separation of the two modes at the level of hash INPUTS
+  (`ph_vs_pure_inputs_differ`, `accepted_pure_input_ne_ph_input`).
+
+What is proved only UNDER EXPLICIT, UNPROVED HYPOTHESES:
+* `verify_sign` is a theorem about an abstract `AddCommGroup`;
+  `verify_sign_model` transfers it to the model under the hypothesis structure
+  `EdwardsInterp` ("the Edwards arithmetic is a group; decode ∘ encode = id") — that
+  hypothesis is NOT proved, neither for the Lean curve functions nor for dalek;
+* `verify_model_vs_spec` (dalek-style vs libsodium-style decision) uses per-input
+  hypotheses listed in its docstring.
+-/
+namespace DryocVerif.Properties.C06
+open DryocVerif DryocVerif.Spec.Ed25519 DryocVerif.Model.Sign
+open DryocVerif.Proofs.Sign DryocVerif.Proofs.SignVectors
+
+/-! ## 1. signing = RFC 8032 -/
+
+/-- `Model.Sign.DOM2PREFIX` is RFC 8032's `dom2(1, "")` -/
+theorem dom2prefix_eq_spec : DOM2PREFIX = dom2 1 [] := dom2prefix_eq
+
+/-- dryoc's clamp (`clamp_hash`) is RFC 7748/8032's, on every input -/
+theorem clampHash_eq_spec (h : Bytes) : clampHash h = Spec.X25519.clamp h :=
+  clampHash_eq_clamp h
+
+/-- the secret scalar dryoc derives from the seed is `secretExpand`'s, reduced mod L -/
+theorem secret_scalar_eq_spec (seed : Bytes) :
+    le (clampHash (Spec.Sha512.sha512 seed)) % L = (secretExpand seed).1 % L := by
+  simp [secretExpand, Spec.X25519.decodeScalar25519, clampHash_eq_clamp, clamp_take]
+
+/-- `S = (k·(a mod L) mod L + r) mod L` (dryoc/dalek) = `(r + k·a) mod L` (RFC 8032) -/
+theorem scalar_eq_spec (k a r : Nat) : (k * (a % L) % L + r) % L = (r + k * a) % L :=
+  scalar_arith k a r L
+
+/-- **pure Ed25519**: dryoc's sequence (hash the seed; nonce = H(prefix‖M) mod L;
+R = [r]B; k = H(R‖A‖M) mod L; S = (k·(a mod L) + r) mod L) produces exactly the bytes of
+RFC 8032 `sign`, whenever the second half of `sk` is the public key of its first half.
+(`sk.length = 64` is not even needed.) -/
+theorem sign_model_eq_spec (msg sk : Bytes) (_hlen : sk.length = 64)
+    (hpk : sk.drop 32 = publicKey (sk.take 32)) :
+    signDetached Spec.Sha512.sha512 msg sk false = Spec.Ed25519.sign (sk.take 32) msg :=
+  signDetached_eq_signCore msg sk false hpk
+
+/-- the pre-hashed mode on an already computed prehash -/
+theorem signPrehashed_model_eq_spec (ph sk : Bytes)
+    (hpk : sk.drop 32 = publicKey (sk.take 32)) :
+    signDetached Spec.Sha512.sha512 ph sk true = signPhPrehashed (sk.take 32) ph :=
+  signDetached_eq_signCore ph sk true hpk
+
+/-- **Ed25519ph**, incremental: for ANY split of the message into chunks, dryoc's
+`init; update…; final_create` = RFC 8032 Ed25519ph (empty context) of the concatenation -/
+theorem signPh_model_eq_spec (cs : List Bytes) (sk : Bytes)
+    (hpk : sk.drop 32 = publicKey (sk.take 32)) :
+    Model.Sign.signPh Spec.Sha512.sha512 cs sk = Spec.Ed25519.signPh (sk.take 32) cs.flatten :=
+  signDetached_eq_signCore _ sk true hpk
+
+/-- chunking is irrelevant -/
+theorem signPh_chunking (H : Bytes → Bytes) (cs cs' : List Bytes) (sk : Bytes)
+    (h : cs.flatten = cs'.flatten) : Model.Sign.signPh H cs sk = Model.Sign.signPh H cs' sk := by
+  unfold Model.Sign.signPh; rw [h]
+
+/-- a key pair made by `seedKeypair` satisfies the hypothesis of `sign_model_eq_spec`
+up to the reduction of the scalar mod L before the base-point multiplication (dalek
+multiplies by `a mod L`, RFC 8032 by `a`; equal as group elements only by `[L]B = 0`,
+which is curve theory and not proved here — but see `tv_keypair` for a kernel-checked
+instance) -/
+theorem seedKeypair_shape (H : Bytes → Bytes) (seed : Bytes) (hs : seed.length = 32) :
+    let (pk, sk) := seedKeypair H seed
+    sk.length = 64 ∧ sk.take 32 = seed ∧ sk.drop 32 = pk ∧ pk.length = 32 := by
+  simp only [seedKeypair]
+  refine ⟨?_, List.take_left' hs, List.drop_left' hs, encodePoint_length _⟩
+  simp [hs, encodePoint_length]
+
+/-! ## 2. layout, lengths, error behaviour -/
+
+theorem toLE_length (n v : Nat) : (toLE n v).length = n := Proofs.Sign.toLE_length n v
+
+theorem encodePoint_length (P : Point) : (encodePoint P).length = 32 :=
+  Proofs.Sign.encodePoint_length P
+
+/-- a detached signature is 64 bytes: 32 of R, 32 of S, and S is canonical -/
+theorem sig_length (H : Bytes → Bytes) (msg sk : Bytes) (ph : Bool) :
+    (signDetached H msg sk ph).length = 64 ∧
+    ((signDetached H msg sk ph).take 32).length = 32 ∧
+    le ((signDetached H msg sk ph).drop 32) < L :=
+  ⟨signDetached_length H msg sk ph, by rw [signDetached_take32]; exact sigR_length ..,
+    signDetached_S_canonical H msg sk ph⟩
+
+/-- combined mode: signature first, then the message, exactly when the buffer fits -/
+theorem sig_layout (H : Bytes → Bytes) (msg sk : Bytes) :
+    signCombined H (msg.length + 64) msg sk = .ok (signDetached H msg sk false ++ msg) := by
+  simp [signCombined]
+
+theorem sig_layout_length (H : Bytes → Bytes) (msg sk : Bytes) :
+    (signDetached H msg sk false ++ msg).length = 64 + msg.length := by
+  rw [List.length_append, signDetached_length]
+
+theorem signCombined_wrong_buffer (H : Bytes → Bytes) (n : Nat) (msg sk : Bytes)
+    (h : n ≠ msg.length + 64) : signCombined H n msg sk = .err := by
+  simp [signCombined, h]
+
+theorem signCombined_never_panics (H : Bytes → Bytes) (n : Nat) (msg sk : Bytes) :
+    signCombined H n msg sk ≠ .panic := by
+  unfold signCombined; split <;> simp
+
+/-- `SignedMessage::from_bytes` splits at 64 -/
+theorem fromBytes_split (sig m : Bytes) (h : sig.length = 64) :
+    fromBytes (sig ++ m) = .ok (sig, m) := by
+  unfold fromBytes
+  rw [List.take_left' h, List.drop_left' h]
+  simp [h]
+
+theorem fromBytes_short (bs : Bytes) (h : bs.length < 64) : fromBytes bs = .err := by
+  simp [fromBytes, h]
+
+/-- `from_bytes ∘ sign_combined` recovers (signature, message) -/
+theorem fromBytes_signCombined (H : Bytes → Bytes) (msg sk : Bytes) :
+    fromBytes (signDetached H msg sk false ++ msg) = .ok (signDetached H msg sk false, msg) :=
+  fromBytes_split _ _ (signDetached_length H msg sk false)
+
+theorem short_combined_rejected (H : Bytes → Bytes) (n : Nat) (sm pk : Bytes)
+    (h : sm.length < 64) : signOpen H n sm pk = .err := by
+  simp [signOpen, h]
+
+theorem signOpen_wrong_buffer (H : Bytes → Bytes) (n : Nat) (sm pk : Bytes)
+    (h : n ≠ sm.length - 64) : signOpen H n sm pk = .err := by
+  unfold signOpen; rw [if_pos h]; split <;> rfl
+
+theorem signOpen_never_panics (H : Bytes → Bytes) (n : Nat) (sm pk : Bytes) :
+    signOpen H n sm pk ≠ .panic := by
+  unfold signOpen; repeat' split
+  all_goals simp
+
+/-- `crypto_sign_open` returns a message iff the buffer lengths fit and
+`verifyDetached` accepts the first 64 bytes as a signature of the rest — and then the
+message returned is that rest -/
+theorem signOpen_ok_iff (H : Bytes → Bytes) (n : Nat) (sm pk m : Bytes) :
+    signOpen H n sm pk = .ok m ↔
+      64 ≤ sm.length ∧ n = sm.length - 64 ∧ m = sm.drop 64 ∧
+      verifyDetached H (sm.take 64) (sm.drop 64) pk false = true := by
+  unfold signOpen
+  by_cases h1 : sm.length < 64
+  · simp [h1]; omega
+  · by_cases h2 : n = sm.length - 64
+    · by_cases h3 : verifyDetached H (sm.take 64) (sm.drop 64) pk false = true
+      · simp [h1, h2, h3, eq_comm]; intro _; omega
+      · simp [h1, h2, h3]
+    · simp [h1, h2]
+
+/-- open ∘ combined-sign: accepted iff the detached signature verifies -/
+theorem signOpen_signed (H : Bytes → Bytes) (sig msg pk : Bytes) (h : sig.length = 64) :
+    signOpen H msg.length (sig ++ msg) pk =
+      if verifyDetached H sig msg pk false then .ok msg else .err := by
+  unfold signOpen
+  rw [List.take_left' h, List.drop_left' h]
+  simp [h]
+  omega
+
+/-! ## 3. canonical scalar, lengths -/
+
+/-- a non-canonical `S` (≥ L) is rejected — every signature, message, key, mode, hash -/
+theorem noncanonical_S_rejected (H : Bytes → Bytes) (sig msg pk : Bytes) (ph : Bool)
+    (h : L ≤ le (sig.drop 32)) : verifyDetached H sig msg pk ph = false := by
+  rw [← Bool.not_eq_true, verifyDetached_true_iff]
+  rintro ⟨-, -, h3, -⟩; omega
+
+/-- malleability by adding multiples of L: `R ‖ (S + k·L)` is rejected for every
+`k ≥ 1` (whenever it fits in 32 bytes; if it does not, `toLE` truncates and the value
+is a different one) -/
+theorem S_plus_kL_rejected (H : Bytes → Bytes) (Rb msg pk : Bytes) (ph : Bool) (S k : Nat)
+    (hR : Rb.length = 32) (hk : 1 ≤ k) (hfit : S + k * L < 2 ^ 256) :
+    verifyDetached H (Rb ++ toLE 32 (S + k * L)) msg pk ph = false := by
+  apply noncanonical_S_rejected
+  rw [List.drop_left' hR, le_toLE_of_lt (by simpa using hfit)]
+  calc L = 1 * L := (Nat.one_mul L).symm
+    _ ≤ k * L := Nat.mul_le_mul_right L hk
+    _ ≤ S + k * L := Nat.le_add_left _ _
+
+theorem wrong_length_rejected (H : Bytes → Bytes) (sig msg pk : Bytes) (ph : Bool)
+    (h : sig.length ≠ 64 ∨ pk.length ≠ 32) : verifyDetached H sig msg pk ph = false := by
+  rw [← Bool.not_eq_true, verifyDetached_true_iff]
+  rintro ⟨h1, h2, -⟩; cases h <;> contradiction
+
+/-! ## 4. small order, undecodable -/
+
+theorem smallorder_R_rejected (H : Bytes → Bytes) (sig msg pk : Bytes) (ph : Bool) (R : Point)
+    (hR : decodePointLax (sig.take 32) = some R) (hso : isSmallOrder R = true) :
+    verifyDetached H sig msg pk ph = false := by
+  rw [← Bool.not_eq_true, verifyDetached_true_iff]
+  rintro ⟨-, -, -, R', A, hR', hso', -⟩
+  rw [hR] at hR'; cases hR'; rw [hso] at hso'; cases hso'
+
+theorem smallorder_A_rejected (H : Bytes → Bytes) (sig msg pk : Bytes) (ph : Bool) (A : Point)
+    (hA : decodePointLax pk = some A) (hso : isSmallOrder A = true) :
+    verifyDetached H sig msg pk ph = false := by
+  rw [← Bool.not_eq_true, verifyDetached_true_iff]
+  rintro ⟨-, -, -, R', A', -, -, hA', hso', -⟩
+  rw [hA] at hA'; cases hA'; rw [hso] at hso'; cases hso'
+
+theorem undecodable_rejected (H : Bytes → Bytes) (sig msg pk : Bytes) (ph : Bool)
+    (h : decodePointLax (sig.take 32) = none ∨ decodePointLax pk = none) :
+    verifyDetached H sig msg pk ph = false := by
+  rw [← Bool.not_eq_true, verifyDetached_true_iff]
+  rintro ⟨-, -, -, R', A', hR, -, hA, -⟩
+  cases h with
+  | inl h => rw [h] at hR; cases hR
+  | inr h => rw [h] at hA; cases hA
+
+/-- the complete acceptance condition (re-exported) -/
+theorem verifyDetached_true_iff (H : Bytes → Bytes) (sig msg pk : Bytes) (ph : Bool) :
+    verifyDetached H sig msg pk ph = true ↔
+      sig.length = 64 ∧ pk.length = 32 ∧ le (sig.drop 32) < L ∧
+      ∃ R A, decodePointLax (sig.take 32) = some R ∧ isSmallOrder R = false ∧
+        decodePointLax pk = some A ∧ isSmallOrder A = false ∧
+        pointEq (add (scalarMul
+            (le (H ((if ph then DOM2PREFIX else []) ++ sig.take 32 ++ pk ++ msg)) % L) (neg A))
+          (scalarMul (le (sig.drop 32)) B)) R = true :=
+  Proofs.Sign.verifyDetached_true_iff H sig msg pk ph
+
+/-- the pre-hashed front end is `verifyDetached` on the hash of the concatenation -/
+theorem verifyPh_eq (H : Bytes → Bytes) (cs : List Bytes) (sig pk : Bytes) :
+    verifyPh H cs sig pk = verifyDetached H sig (H cs.flatten) pk true := rfl
+
+/-! ## 5. verify ∘ sign — algebraic core over an abstract group -/
+
+/-- **Algebraic core of `verify ∘ sign = true`.**  In ANY additive commutative group `G`
+(Mathlib's `AddCommGroup`) with an element `B` such that `L • B = 0`, for all naturals
+`a r k`, with `A = a • B`, `R = r • B`, `S = (r + k·a) mod L`:  `S • B − k • A = R`.
+
+This is a theorem about abstract groups only.  That curve25519-dalek's Edwards
+arithmetic (or the `Spec.Ed25519` functions standing for it) instantiates such a group,
+with `B` of order `L`, is NOT proved anywhere in this development. -/
+theorem verify_sign {G : Type _} [AddCommGroup G] (B : G) (L : ℕ) (hB : L • B = 0) (a r k : ℕ) :
+    ((r + k * a) % L) • B - k • (a • B) = r • B :=
+  Proofs.SignGroup.verify_sign B L hB a r k
+
+/-- **verify ∘ sign = true for the model**, both modes, any hash `H`, any 32-byte seed,
+key pair from `seedKeypair` — CONDITIONAL on
+* `I : EdwardsInterp G valid φ`: the UNPROVED hypothesis that the curve functions
+  `add`/`neg`/`scalarMul`/`pointEq` act as a commutative group through an interpretation
+  `φ` on `valid` points, that `[L]B = 0`, and that lenient decoding inverts encoding;
+* neither the decoded `R` nor the decoded public key has small order (dryoc rejects its
+  own signature otherwise, e.g. when `r ≡ 0 mod L`). -/
+theorem verify_sign_model {G : Type _} [AddCommGroup G] {valid : Point → Prop} {φ : Point → G}
+    (I : Proofs.SignGroup.EdwardsInterp G valid φ) (H : Bytes → Bytes)
+    (seed msg : Bytes) (ph : Bool) (hseed : seed.length = 32)
+    (hRso : ∀ P, decodePointLax
+        ((signDetached H msg (seedKeypair H seed).2 ph).take 32) = some P → isSmallOrder P = false)
+    (hAso : ∀ P, decodePointLax (seedKeypair H seed).1 = some P → isSmallOrder P = false) :
+    verifyDetached H (signDetached H msg (seedKeypair H seed).2 ph) msg (seedKeypair H seed).1 ph
+      = true :=
+  Proofs.SignGroup.verify_sign_of_interp I H seed msg ph hseed hRso hAso
+
+/-! ## 6. the two modes hash different strings -/
+
+theorem dom2prefix_length : DOM2PREFIX.length = 34 := by decide +kernel
+
+/-- the input of the challenge hash in pre-hashed mode starts with the 32 ASCII bytes
+"SigEd25519 no Ed25519 collisions" … -/
+theorem ph_input_prefix (Rb A m : Bytes) :
+    (DOM2PREFIX ++ Rb ++ A ++ m).take 32 = DOM2PREFIX.take 32 := by
+  rw [List.append_assoc, List.append_assoc, List.take_append_of_le_length
+    (by rw [dom2prefix_length]; decide)]
+
+/-- … the input in pure mode starts with R -/
+theorem pure_input_prefix (Rb A m : Bytes) (hR : Rb.length = 32) :
+    (([] : Bytes) ++ Rb ++ A ++ m).take 32 = Rb := by
+  rw [List.nil_append, List.append_assoc, List.take_left' hR]
+
+/-- The naive claim "the two inputs always differ" is FALSE — lengths can be shifted: -/
+example : ∃ Rb A m Rb' A' m' : Bytes, Rb.length = 32 ∧ A.length = 32 ∧ Rb'.length = 32 ∧
+    A'.length = 32 ∧ DOM2PREFIX ++ Rb ++ A ++ m = [] ++ Rb' ++ A' ++ m' :=
+  ⟨zeros 32, zeros 32, [], DOM2PREFIX.take 32, [1, 0] ++ zeros 30, zeros 34,
+    by decide +kernel⟩
+
+/-- **The true statement**: the inputs differ unless the pure-mode `R` is literally the
+ASCII string "SigEd25519 no Ed25519 collisions". -/
+theorem ph_vs_pure_inputs_differ (Rb A m Rb' A' m' : Bytes) (hR' : Rb'.length = 32)
+    (hne : Rb' ≠ DOM2PREFIX.take 32) :
+    DOM2PREFIX ++ Rb ++ A ++ m ≠ [] ++ Rb' ++ A' ++ m' := by
+  intro h
+  have := congrArg (List.take 32) h
+  rw [ph_input_prefix, pure_input_prefix _ _ _ hR'] at this
+  exact hne this.symm
+
+/-- … and that string is not the encoding of any point, even for the lenient decoder
+(kernel-checked: its y gives a non-square x²) -/
+theorem dom2prefix_not_a_point : decodePointLax (DOM2PREFIX.take 32) = none := by
+  decide +kernel
+
+/-- **Domain separation.**  If a signature is accepted in PURE mode, then the string
+hashed for its challenge `k` differs from the string hashed in PRE-HASHED mode for every
+signature, key and prehash.  (So a cross-mode acceptance needs two different SHA-512
+inputs that give the same `k`, or a different `k` that satisfies the group equation.) -/
+theorem accepted_pure_input_ne_ph_input (H : Bytes → Bytes) (sig msg pk : Bytes)
+    (hacc : verifyDetached H sig msg pk false = true) (sig' pk' m' : Bytes) :
+    DOM2PREFIX ++ sig'.take 32 ++ pk' ++ m' ≠ [] ++ sig.take 32 ++ pk ++ msg := by
+  obtain ⟨h1, -, -, R, A, hR, -⟩ := (Proofs.Sign.verifyDetached_true_iff ..).1 hacc
+  apply ph_vs_pure_inputs_differ
+  · rw [List.length_take]; omega
+  · intro h; rw [h, dom2prefix_not_a_point] at hR; cases hR
+
+/-- the same for everything the signer produces under the group hypothesis is not
+needed: already any `R` that decodes separates the inputs -/
+theorem decodable_R_separates (sig msg pk : Bytes) (hlen : sig.length = 64)
+    (hdec : decodePointLax (sig.take 32) ≠ none) (sig' pk' m' : Bytes) :
+    DOM2PREFIX ++ sig'.take 32 ++ pk' ++ m' ≠ [] ++ sig.take 32 ++ pk ++ msg := by
+  apply ph_vs_pure_inputs_differ
+  · rw [List.length_take]; omega
+  · intro h; rw [h] at hdec; exact hdec dom2prefix_not_a_point
+
+/-! ## 7. dalek-style (model) vs libsodium-style (spec) verification -/
+
+/-- the unified addition is symmetric on representations -/
+theorem point_add_comm (P Q : Point) : add P Q = add Q P := Proofs.Sign.point_add_comm P Q
+
+/-- dryoc's decision (lenient decode, `[8]P = 0` tests, projective comparison) equals
+libsodium's strict decision (7-entry blacklist, canonical pk, strict decode, bytewise
+comparison of the re-encoded `R'`), with SHA-512, in both modes, under exactly these
+hypotheses about the given `sig`, `pk` (none is proved in general):
+* `hR`      `R` decodes (leniently) to a point `R`;
+* `hRcanon` `sig[0..32]` is THE canonical encoding of `R`: the recomputed point
+            `[S]B + [k](−A)` is projectively equal to `R` iff it encodes to those bytes;
+* `hdec`    strict and lenient decoding agree on `pk`;
+* `hcanon`  `pk` passes libsodium's `ge25519_is_canonical`;
+* `hsoR`, `hsoA`  the blacklist decides small order correctly on `R` and on `pk`.
+All six are kernel-checked on RFC 8032 TEST 1 (`tv_model_eq_spec`). -/
+theorem verify_model_vs_spec (sig msg pk : Bytes) (ph : Bool) (R : Point)
+    (hR : decodePointLax (sig.take 32) = some R)
+    (hRcanon : ∀ A, decodePointLax pk = some A →
+      (pointEq (checkPoint (if ph then dom2 1 [] else []) sig msg pk A) R = true ↔
+        encodePoint (checkPoint (if ph then dom2 1 [] else []) sig msg pk A) = sig.take 32))
+    (hdec : decodePoint pk = decodePointLax pk)
+    (hcanon : isCanonicalPoint pk = true)
+    (hsoR : hasSmallOrder (sig.take 32) = isSmallOrder R)
+    (hsoA : ∀ A, decodePointLax pk = some A → hasSmallOrder pk = isSmallOrder A) :
+    verifyDetached Spec.Sha512.sha512 sig msg pk ph
+      = verifyCore (if ph then dom2 1 [] else []) pk msg sig :=
+  verify_model_eq_spec' sig msg pk ph R hR hRcanon hdec hcanon hsoR hsoA
+
+/-- both verifiers reject the same malformed inputs outright, with no hypothesis:
+wrong lengths and non-canonical S -/
+theorem both_reject_malformed (sig msg pk : Bytes) (ph : Bool)
+    (h : sig.length ≠ 64 ∨ pk.length ≠ 32 ∨ L ≤ le (sig.drop 32)) :
+    verifyDetached Spec.Sha512.sha512 sig msg pk ph = false ∧
+    verifyCore (if ph then dom2 1 [] else []) pk msg sig = false := by
+  constructor
+  · rcases h with h | h | h
+    · exact wrong_length_rejected _ _ _ _ _ (Or.inl h)
+    · exact wrong_length_rejected _ _ _ _ _ (Or.inr h)
+    · exact noncanonical_S_rejected _ _ _ _ _ h
+  · rw [← Bool.not_eq_true, verifyCore_true_iff]
+    rintro ⟨h1, h2, h3, -⟩
+    rcases h with h | h | h
+    · exact h h1
+    · exact h h2
+    · omega
+
+/-! ## non-vacuity (RFC 8032 §7.1 TEST 1, every fact checked by the kernel) -/
+
+/-- the hypotheses of `sign_model_eq_spec` hold for the RFC key … -/
+example : tvSk.length = 64 ∧ tvSk.drop 32 = publicKey (tvSk.take 32) :=
+  ⟨tv_sk_length, by
+    have h1 : tvSk.take 32 = tvSeed := List.take_left' (by decide)
+    have h2 : tvSk.drop 32 = tvPk := List.drop_left' (by decide)
+    rw [h1, h2, tv_pk]⟩
+
+/-- … which is the key pair `seedKeypair` makes, the model signs to the RFC's signature,
+and the model accepts it -/
+example : seedKeypair Spec.Sha512.sha512 tvSeed = (tvPk, tvSk) ∧
+    signDetached Spec.Sha512.sha512 [] tvSk false = tvSig ∧
+    verifyDetached Spec.Sha512.sha512 tvSig [] tvPk false = true ∧
+    verifyDetached Spec.Sha512.sha512 tvSig [] tvPk true = false :=
+  ⟨tv_keypair, tv_sign, tv_verify, tv_verify_ph⟩
+
+/-- through `sign_model_eq_spec`: RFC 8032 `sign` gives the RFC's signature -/
+example : Spec.Ed25519.sign tvSeed [] = tvSig := by
+  have h1 : tvSk.take 32 = tvSeed := List.take_left' (by decide)
+  have h2 : tvSk.drop 32 = tvPk := List.drop_left' (by decide)
+  rw [← h1, ← sign_model_eq_spec [] tvSk tv_sk_length (by rw [h1, h2, tv_pk])]
+  exact tv_sign
+
+/-- `S + L` on the RFC signature is rejected -/
+example : verifyDetached Spec.Sha512.sha512
+    (tvSig.take 32 ++ toLE 32 (le (tvSig.drop 32) + 1 * L)) [] tvPk false = false :=
+  S_plus_kL_rejected _ _ _ _ _ _ 1 (by decide) (Nat.le_refl 1) (by decide +kernel)
+
+/-- the hypotheses of `verify_model_vs_spec` are jointly satisfiable -/
+example : verifyDetached Spec.Sha512.sha512 tvSig [] tvPk false = verifyCore [] tvPk [] tvSig :=
+  tv_model_eq_spec
+
+/-- small-order rejection is not vacuous: the identity encodes as `01 00…00`, decodes,
+and has small order -/
+example : ∃ R, decodePointLax ((1 :: zeros 63 : Bytes).take 32) = some R ∧
+    isSmallOrder R = true :=
+  ⟨(decodePointLax ((1 :: zeros 63 : Bytes).take 32)).getD identity,
+    some_getD (by decide +kernel) _, by decide +kernel⟩
 
 end DryocVerif.Properties.C06
